@@ -777,6 +777,19 @@ def shortcut_ir():
     if f is None:
         raise Fail('_convert_attribute_to_child not found')
     body = [st for st in f.body if not (isinstance(st, ast.Expr) and isinstance(st.value, ast.Constant))]
+    # a local bound once to child_name.split('_') may stand for that expression
+    for k_, st in enumerate(body[:4]):
+        if isinstance(st, ast.Assign) and len(st.targets) == 1 and isinstance(st.targets[0], ast.Name) and ast.unparse(st.value) == "child_name.split('_')":
+            loc = st.targets[0].id
+            stores = [n for x in body for n in ast.walk(x) if isinstance(n, ast.Name) and n.id == loc and isinstance(n.ctx, ast.Store)]
+            if len(stores) == 1 and loc not in ('name', 'value', 'child_name', 'child_class_name', 'child_class', 'found_child', 'self'):
+                class Sub(ast.NodeTransformer):
+                    def visit_Name(self, n):
+                        if n.id == loc and isinstance(n.ctx, ast.Load):
+                            return ast.parse("child_name.split('_')", mode='eval').body
+                        return n
+                body = [ast.fix_missing_locations(Sub().visit(x)) for j_, x in enumerate(body) if j_ != k_]
+            break
     src = [ast.unparse(st) for st in body]
     head = ["if not name.startswith('xml_'):\n    raise NameError", "child_name = name.replace('xml_', '')",
             "if '-'.join(child_name.split('_')) not in self.possible_children_names:\n    raise NameError",
